@@ -1,7 +1,9 @@
-(* C01, statement layer.  Statements only; proofs in Proofs/TranslP.v, Proofs/SkeletonP.v. *)
+(* C01, statement layer.  Statements only; proofs in Proofs/SkeletonP.v (skeleton, break guard)
+   and Proofs/SimP.v, Proofs/TranslSimpleP.v, Proofs/SimTopP.v, Proofs/SimDemoP.v (simulation). *)
 From Coq Require Import ZArith QArith List Bool.
-From RV Require Import Base.Wire Base.Text Lang.StmtAst Lang.Transl Lang.StmtSem Lang.StmtGuard.
-From RV Require Import Proofs.SkeletonP.
+From RV Require Import Base.Wire Base.Text Lang.StmtAst Lang.Transl Lang.StmtSem Lang.StmtGuard
+  Lang.SemFacts Lang.StmtDemo.
+From RV Require Import Proofs.SkeletonP Proofs.SimTopP Proofs.SimDemoP.
 Import ListNotations.
 Open Scope Z_scope.
 
@@ -20,3 +22,62 @@ Theorem C01_break_guard : forall pre body rest,
   (forall c e, transl {| p_pre := pre; p_main := Some (body ++ [PIf c [PBreak] [] e]) |} = None).
 Proof. exact break_guard. Qed.
 Print Assumptions C01_break_guard.
+
+(* Statement-level SIMULATION (reject-or-preserve, statement layer).  For every program that
+   [transl] accepts and that lies inside the executable guard [guard_ok]
+     - every variable is first assigned at top level of the setup part (so it is a C global),
+     - every later assignment / augmented assignment keeps the type label of the first one,
+     - no tuple assignment,
+     - range() bounds are int-labelled, do not read the loop variable nor any name the loop
+       body assigns, loop variables are fresh, never assigned, and read only inside their loop,
+     - expression ids identify annotations consistently,
+   and for every expression semantics [sem]/[augsem] shared by both sides that satisfies
+   [sem_facts] (the type label of an expression is the type of its value: the interface to the
+   expression layer, units C01_expr / C02): whenever the Python execution (top-level statements,
+   then n passes of the `while True:` body) terminates with trace tr, the C execution of the
+   translated program (dynamic initialisation of the globals, setup(), n calls of loop()) produces
+   the same trace tr, for every sufficiently large C fuel.  Python runs that are not well defined
+   (unbound name, failing expression) or exhaust their fuel are excluded by the hypothesis. *)
+Theorem C01_stmt_preserve_partial :
+  forall sem augsem p c,
+    transl p = Some c -> guard_ok p = true -> sem_facts sem augsem p ->
+    forall fuel n tr, pprog_exec sem augsem fuel n p = Some tr ->
+    exists F, forall F', (F <= F')%nat ->
+      cprog_exec sem augsem (info_of p) F' n (match p_main p with Some _ => true | None => false end) c = Some tr.
+Proof. exact stmt_preserve_partial. Qed.
+Print Assumptions C01_stmt_preserve_partial.
+
+(* The hypotheses are satisfiable by a non-trivial program (constant and run-time globals, a for
+   loop, if/else with an augmented assignment, 4 passes of the main loop, 8 trace events), and
+   on it both executions compute the stated trace. *)
+Example C01_stmt_preserve_nonvacuous :
+  guard_ok demo = true /\ sem_facts demo_sem demo_aug demo /\
+  pprog_exec demo_sem demo_aug 30 4 demo = Some demo_trace /\
+  exists c, transl demo = Some c /\
+            cprog_exec demo_sem demo_aug (info_of demo) 30 4 true c = Some demo_trace.
+Proof. exact demo_ok. Qed.
+Print Assumptions C01_stmt_preserve_nonvacuous.
+
+(* The guard clause on range() bounds is necessary: `n = 3; for i in range(n): n = n - 1;
+   mon.write(i)` is accepted, Python writes 0 1 2, the C for-loop (bound re-evaluated before
+   every iteration) writes 0 1.  Finding F-C01-range-bound-reeval. *)
+Theorem C01_stmt_range_bound_refuted :
+  exists c trP trC,
+    transl reeval = Some c /\ sem_facts reeval_sem demo_aug reeval /\
+    pprog_exec reeval_sem demo_aug 20 0 reeval = Some trP /\
+    cprog_exec reeval_sem demo_aug (info_of reeval) 20 0 false c = Some trC /\
+    trP <> trC /\ guard_ok reeval = false.
+Proof. exact reeval_refuted. Qed.
+Print Assumptions C01_stmt_range_bound_refuted.
+
+(* The guard clause on stable types is necessary: `x = 1; x = 2.5; mon.write(x)` is accepted,
+   the C variable keeps the type of its first assignment (int), so the device prints 2 where
+   Python prints 2.5.  Finding F-C01-retype-truncates. *)
+Theorem C01_stmt_retype_refuted :
+  exists c trP trC,
+    transl retype = Some c /\ sem_facts retype_sem demo_aug retype /\
+    pprog_exec retype_sem demo_aug 20 0 retype = Some trP /\
+    cprog_exec retype_sem demo_aug (info_of retype) 20 0 false c = Some trC /\
+    trP <> trC /\ guard_ok retype = false.
+Proof. exact retype_refuted. Qed.
+Print Assumptions C01_stmt_retype_refuted.
